@@ -344,7 +344,15 @@ def _weighted_estimators(ck: Checker, prog: Program, rule: str):
                 what = "post(nansum(pre(v)*w)/nansum(w))"
             else:
                 # the mean about which deviations are taken
-                logn = case(l, sp.Eq(dist, sp.Symbol("'lognormal'"), evaluate=False))
+                # the decision may be taken on the resolved name (any accepted spelling) - the raw spelling is reported by the alias rule
+                DMs = R("DISTRIBUTION_MAP")
+                low = sp.Function("lower")(dist)
+                subjects = [dist] + [fn_(DMs, d_, *rest) for d_ in (dist, low) for fn_, rest in ((sp.Function("get"), (NONE,)), (sp.Function("get"), ()), (gi, ()))]
+                logn = None
+                for subj in subjects:
+                    c_ = case(l, sp.Eq(subj, sp.Symbol("'lognormal'"), evaluate=False))
+                    if c_ is not None:
+                        logn = c_
                 nist = case(l, sp.Eq(den_p, sp.Symbol("'nist'"), evaluate=False))
                 cheng = case(l, sp.Eq(den_p, sp.Symbol("'cheng'"), evaluate=False))
                 if logn is None:
@@ -548,3 +556,42 @@ def check_accessor_table(ck: Checker, prog: Program, cls: Class, rule: str, tabl
         for i, w in enumerate(wants):
             if i not in used:
                 ck.violation(rule, m.qualname, f"missing: {w}", f"no return path of {name} yields `{w}`", loc=m.loc())
+
+
+CANONICAL_NAMES = ("normal", "lognormal")
+
+
+def check_alias_discipline(ck: Checker, prog: Program, rule: str, modules=("statistics", "hvsr_traditional", "hvsr_azimuthal"), floor: int = 6):
+    """A distribution may be named by any key of DISTRIBUTION_MAP ("log-normal" is the lognormal assumption).  Every decision
+    that compares a distribution name with a canonical literal must therefore look at the *resolved* name: a value that came
+    out of DISTRIBUTION_MAP, never the caller's raw spelling.  (Engler-style contradiction: the statistics helpers resolve the
+    name on one path; a path that compares the raw name disagrees with them for every alias.)"""
+    from ..dataflow import reaching, PARAM
+    dm = prog.registry("constants", "DISTRIBUTION_MAP")
+    aliases = [k for k, v in dm.items() if isinstance(v, ast.Constant) and k != v.value]
+    n = 0
+    for mname in modules:
+        mod = prog.module(mname)
+        for f in [g for g in prog.funcs.values() if g.module is mod and g.kind != "lambda" and g.qualname not in getattr(prog, "absorbed", set())]:
+            sites = []
+            for c in own_nodes(f.node):
+                if isinstance(c, ast.Compare) and len(c.ops) == 1 and isinstance(c.ops[0], (ast.Eq, ast.NotEq)):
+                    a, b = c.left, c.comparators[0]
+                    for x, y in ((a, b), (b, a)):
+                        if isinstance(x, ast.Name) and isinstance(y, ast.Constant) and y.value in CANONICAL_NAMES:
+                            sites.append((c, x))
+            if not sites:
+                continue
+            rd = reaching(f)
+            for c, x in sites:
+                n += 1
+                defs = rd.def_stmts(x.id, c)
+                raw = [d for d in defs if d is PARAM or not (isinstance(d, ast.Assign) and "DISTRIBUTION_MAP" in {nn.id for nn in ast.walk(d.value) if isinstance(nn, ast.Name)})]
+                if not raw:
+                    ck.ok(rule, f.qualname, norm_key(c), detail="compares the name resolved through DISTRIBUTION_MAP")
+                else:
+                    ck.violation(rule, f.qualname, f"raw distribution name compared: {norm_key(c)}",
+                                 f"`{unparse(c)}` looks at the caller's spelling of the distribution, not the name resolved through DISTRIBUTION_MAP: "
+                                 f"for the accepted alias(es) {aliases} this decision differs from the one taken by the helpers that do resolve it "
+                                 f"(the lognormal statistic is then computed with a linear-space term)", loc=f.loc(c))
+    ck.floor(rule, n, floor, "comparisons of a distribution name with a canonical literal")
